@@ -1,9 +1,97 @@
-(* C14 - graph-reducible algorithms (theorems are added from Proofs/GraphProofs.v). *)
+(* C14 - graph-reducible algorithms.
+   Reach s a b : b can be reached from a by steps between nodes sharing an edge; Walk s a b n : in n
+   steps.  The breadth-first search of the model (the transcription of _plain_bfs, with the fuel the
+   model gives it) returns exactly the reachability class; connected_components lists every node
+   exactly once and each listed set is a class; the breadth-first levels are the exact shortest walk
+   lengths, hence symmetric, zero on the diagonal only, and infinite exactly across components.
+   All of it at every state reachable by an admissible history.  The agreement of the
+   implementation's array Dijkstra, clustering and converters with the model is the correspondence. *)
 From Coq Require Import String ZArith List Bool.
-From XV Require Import Base.Label Base.LSet Base.ODict Base.Attr Base.Outcome Model.Hypergraph Model.Stats Model.Graph.
+From XV Require Import Base.Label Base.LSet Base.ODict Base.Attr Base.Outcome Model.Hypergraph Model.Stats Model.Graph
+  Proofs.HgViews Proofs.HgInv Proofs.HgStep Proofs.GraphProofs.
 Import ListNotations.
-Open Scope Z_scope.
 
+Lemma reachable_W1 ops : admissible_history hg_empty ops -> W1 (run ops hg_empty) /\ NoDup (ekeys (run ops hg_empty)).
+Proof.
+  intro A. pose proof (run_Inv ops hg_empty A Inv_empty) as (HW & (_ & _ & _ & Ke) & _). split; assumption.
+Qed.
+
+Theorem C14_component_is_reachability_class : forall ops v x,
+  admissible_history hg_empty ops -> let s := run ops hg_empty in
+  In v (nkeys s) -> (In x (component s v) <-> Reach s v x).
+Proof. intros ops v x A s Hv. apply component_spec; [apply (reachable_W1 ops A)|exact Hv]. Qed.
+Print Assumptions C14_component_is_reachability_class.
+
+Theorem C14_components_partition : forall ops,
+  admissible_history hg_empty ops -> let s := run ops hg_empty in
+  NoDup (concat (components s)) /\
+  (forall x, In x (concat (components s)) <-> In x (nkeys s)) /\
+  (forall c, In c (components s) -> exists v, In v (nkeys s) /\ forall x, In x c <-> Reach s v x).
+Proof. intros ops A s. apply components_partition. apply (reachable_W1 ops A). Qed.
+Print Assumptions C14_components_partition.
+
+Theorem C14_reachability_symmetric : forall ops a b,
+  admissible_history hg_empty ops -> let s := run ops hg_empty in Reach s a b -> Reach s b a.
+Proof. intros ops a b A s. apply Reach_sym. apply (reachable_W1 ops A). Qed.
+Print Assumptions C14_reachability_symmetric.
+
+Theorem C14_is_connected : forall ops v r,
+  admissible_history hg_empty ops -> let s := run ops hg_empty in
+  nkeys s = v :: r -> (is_connected s = Some true <-> forall x, In x (nkeys s) -> Reach s v x).
+Proof.
+  intros ops v r A s E. pose proof (run_Inv ops hg_empty A Inv_empty) as (HW & (_ & _ & Kn & _) & _).
+  apply (is_connected_spec s v r HW Kn E).
+Qed.
+Print Assumptions C14_is_connected.
+
+Theorem C14_distance_is_shortest_walk : forall ops a b j,
+  admissible_history hg_empty ops -> let s := run ops hg_empty in
+  In a (nkeys s) ->
+  (dist s a b = Some (Z.of_nat j) <-> (Walk s a b j /\ forall n, Walk s a b n -> (j <= n)%nat)).
+Proof. intros ops a b j A s Ha. apply dist_spec; [apply (reachable_W1 ops A)|exact Ha]. Qed.
+Print Assumptions C14_distance_is_shortest_walk.
+
+Theorem C14_distance_infinite_across_components : forall ops a b,
+  admissible_history hg_empty ops -> let s := run ops hg_empty in
+  In a (nkeys s) -> (dist s a b = None <-> ~ In b (component s a)).
+Proof.
+  intros ops a b A s Ha. pose proof (reachable_W1 ops A) as [HW _].
+  rewrite (component_spec s a b HW Ha). apply dist_none; assumption.
+Qed.
+Print Assumptions C14_distance_infinite_across_components.
+
+Theorem C14_distance_symmetric : forall ops a b,
+  admissible_history hg_empty ops -> let s := run ops hg_empty in
+  In a (nkeys s) -> In b (nkeys s) -> dist s a b = dist s b a.
+Proof. intros ops a b A s. apply dist_sym. apply (reachable_W1 ops A). Qed.
+Print Assumptions C14_distance_symmetric.
+
+Theorem C14_distance_zero_diagonal : forall ops a b,
+  admissible_history hg_empty ops -> let s := run ops hg_empty in
+  In a (nkeys s) -> (dist s a b = Some 0%Z <-> a = b).
+Proof. intros ops a b A s. apply dist_diag. apply (reachable_W1 ops A). Qed.
+Print Assumptions C14_distance_zero_diagonal.
+
+Theorem C14_projection_links : forall s a b,
+  In (a, b) (projection_links s) <->
+  In a (nkeys s) /\ b <> a /\ exists e, In e (mships s a) /\ In b (mems s e).
+Proof. intros s a b. rewrite projection_links_spec, nbrs_spec. tauto. Qed.
+Print Assumptions C14_projection_links.
+
+Theorem C14_encapsulation_links : forall s a b,
+  In (a, b) (dag_links s StAll) <->
+  exists ma mb, In (a, ma) (h_edge s) /\ In (b, mb) (h_edge s) /\
+                mb <> [] /\ (forall x, In x mb -> In x ma) /\ (length mb < length ma)%nat.
+Proof. exact all_links_spec. Qed.
+Print Assumptions C14_encapsulation_links.
+
+Theorem C14_encapsulation_acyclic : forall ops t a b,
+  admissible_history hg_empty ops -> let s := run ops hg_empty in
+  In (a, b) (dag_links s t) -> (esize s b < esize s a)%nat.
+Proof. intros ops t a b A s. apply dag_links_decrease. apply (reachable_W1 ops A). Qed.
+Print Assumptions C14_encapsulation_acyclic.
+
+Open Scope Z_scope.
 Example C14_nonvacuous :
   let s := run [OAddEdgesFrom (EB1 [[LInt 1; LInt 2; LInt 3]; [LInt 3; LInt 4]; [LInt 5; LInt 6]; [LInt 1; LInt 2]]) []; OAddNode (LInt 9) []] hg_empty in
   components s = [[LInt 1; LInt 2; LInt 3; LInt 4]; [LInt 5; LInt 6]; [LInt 9]] /\
